@@ -67,7 +67,7 @@ def gen_inst(rng, big=False):
 
 def gen_cases(ctx):
     rng = ctx.rng
-    for i in range(ctx.scale(1500, 16000)):
+    for i in range(ctx.scale(1500, 64000)):
         if i % 8 == 7:
             seq = [gen_inst(rng) for _ in range(rng.randint(2, 4))]
             yield {"kind": "reuse", "instances": seq, "seed": rng.randrange(2**31),
@@ -78,7 +78,7 @@ def gen_cases(ctx):
                    "tiny_limit": i % 25 == 24}
     # larger random instances under a short time limit: the solver usually stops with
     # status "feasible", where metadata and schedule must still agree
-    for i in range(ctx.scale(4, 60)):
+    for i in range(ctx.scale(4, 240)):
         inst = gen.gen_instance(rng, "classic", max_jobs=1, max_machines=1)
         nj, nm = rng.choice([(15, 10), (20, 10), (20, 15)])
         inst = {"cls": "large", "durations": [], "machines": []}
